@@ -254,9 +254,8 @@ func init() {
 	}
 }
 
-// repoPackages runs the C04 relations (and the C01 reference checks, which are
-// cheap) on the repository's own generated packages.
-func (c *checker) repoPackages() {
+// repoBuilt builds the scratch module of the repository's own packages.
+func (c *checker) repoBuilt() *built {
 	rb := repoSchema()
 	job, err := c.repoJob(rb)
 	if err != nil {
@@ -272,7 +271,17 @@ func (c *checker) repoPackages() {
 		fatal("repository packages: %s", res.Internal)
 	}
 	if !res.BuildOK {
-		c.oracle("C04 repository packages do not build in the scratch module", "repo-packages", summarize(res.BuildOut, 3000), "the repository's checked-in generated code does not compile against the working tree runtime")
+		c.oracle("repository packages do not build in the scratch module", "repo-packages", summarize(res.BuildOut, 3000), "the repository's checked-in generated code does not compile against the working tree runtime")
+		return nil
+	}
+	return b
+}
+
+// repoPackages runs the C04 relations (and the C01 reference checks, which are
+// cheap) on the repository's own generated packages.
+func (c *checker) repoPackages() {
+	b := c.repoBuilt()
+	if b == nil {
 		return
 	}
 	nVal := pick(60, 300)
